@@ -19,7 +19,7 @@ const (
 
 // well-formed documents of a kind the place they are named in does not expect (an activity without object, a Tombstone,
 // a collection, a Link, an actor): reachable in every C11 world under /hostile/kind/<Type>
-var oddKinds = []string{"Travel", "Arrive", "Question", "IntransitiveActivity", "Tombstone", "OrderedCollection", "Link", "Person", "Relationship", "Undo", "Accept", "PathlessInbox", "MailtoInbox"}
+var oddKinds = []string{"Travel", "Arrive", "Question", "IntransitiveActivity", "Tombstone", "OrderedCollection", "Link", "Person", "Relationship", "Undo", "Accept", "PathlessInbox", "MailtoInbox", "HugeCollection"}
 
 func iriKind(t string) string { return "https://" + hostR + "/hostile/kind/" + t }
 
@@ -31,6 +31,8 @@ func oddKindDocs() []DocSpec {
 		case "PathlessInbox":
 			// an actor whose inbox IRI has no path at all / is not hierarchical: legal IRIs both
 			d["type"], d["inbox"] = "Person", "https://inbox-"+hostR
+		case "HugeCollection":
+			d["type"], d["totalItems"], d["orderedItems"] = "OrderedCollection", 9e15, []string{"https://" + hostR + "/u/dave"}
 		case "MailtoInbox":
 			d["type"], d["inbox"] = "Service", "mailto:inbox@"+hostR
 		case "Travel", "Arrive", "Question", "IntransitiveActivity":
